@@ -393,5 +393,48 @@ pub fn run(ctx: &Ctx) -> Vec<Eng> {
             }
         });
     }
-    vec![e1, e2, e3]
+    let (ph, maxp) = if ctx.thorough { (48, 4) } else { (40, 3) };
+    // core alphabet: two sample kinds, absent, error, set to the same kind (other value), set to each other kind
+    let mut e4 = Eng::new(
+        "c11-periodic",
+        "periodic histories: every primitive word of length <= p over {P(0.5 s, s0), P(0.5 s, s1), P(2 s, s0), N, E1, set(position), set(velocity), set(acceleration)} repeated to H events, and every history differing from one of these in exactly one position; 3 initial kinds (long runs with many resets / command changes in a regular pattern)",
+        &format!("H={} p<={} => {} histories x 3 initial kinds", ph, maxp, periodic_count(8, maxp, ph)),
+    );
+    for init in inits {
+        par_periodic(&mut e4, 8, maxp, ph, budget, |seq, e| {
+            let h: Vec<Ev> = seq
+                .iter()
+                .map(|&s| match s {
+                    0 => Ev::P(S / 2, 0),
+                    1 => Ev::P(S / 2, 1),
+                    2 => Ev::P(2 * S, 0),
+                    3 => Ev::N(S),
+                    4 => Ev::Er(S),
+                    5 => Ev::Set(0),
+                    6 => Ev::Set(2),
+                    _ => Ev::Set(4),
+                })
+                .collect();
+            e.sample(|| format!("init {:?} [{}]", init, show(&h)));
+            check_history(init, false, &h, e, false)
+        });
+        par_long(&mut e4, 8, 2, &LONG_LENS, budget, |seq, e| {
+            let h: Vec<Ev> = seq
+                .iter()
+                .map(|&s| match s {
+                    0 => Ev::P(S / 2, 0),
+                    1 => Ev::P(S / 2, 1),
+                    2 => Ev::P(2 * S, 0),
+                    3 => Ev::N(S),
+                    4 => Ev::Er(S),
+                    5 => Ev::Set(0),
+                    6 => Ev::Set(2),
+                    _ => Ev::Set(4),
+                })
+                .collect();
+            check_history(init, false, &h, e, false)
+        });
+    }
+    e4.bounds.push_str(&format!("; plus long runs: every primitive word of length <= 2 repeated to 255..257 and 511..513 events followed by one event of each kind ({} histories x 3 initial kinds)", long_count(8, 2, &LONG_LENS)));
+    vec![e1, e2, e3, e4]
 }
